@@ -193,6 +193,8 @@ def measure(ref, s, w, ks):
         return i_cm(s, i_trimw(s, w, ks[j - 1]), 2)
     if o == "wmean":
         return i_mean(s, i_winsw(s, w, ks[j - 1]))
+    if o == "wvar":
+        return i_cm(s, i_winsw(s, w, ks[j - 1]), 2)
     raise KeyError(o)
 
 
@@ -282,6 +284,7 @@ def replay_defs_state(mods, hdr, st, idx, res):
                 A(("tvariance", tag, lambda S=S, WW=WW, kk=kk: mm.tvariance(S, WW, k=kk), obs["tvar"][j]))
                 A(("tstd", tag, lambda S=S, WW=WW, kk=kk: mm.tstd(S, WW, k=kk) ** 2, obs["tvar"][j]))
                 A(("tmean[clip]", tag, lambda S=S, WW=WW, kk=kk: mm.tmean(S, WW, k=kk, clip=True), obs["wmean"][j]))
+                A(("tvariance[clip]", tag, lambda S=S, WW=WW, kk=kk: mm.tvariance(S, WW, k=kk, clip=True), obs["wvar"][j]))
             for fi, (name, tab) in enumerate(sorted(fdict.items())):
                 f = tab.__getitem__
                 if (idx + fi) % 2:          # points as 1-tuples, the way product measures pass them
